@@ -256,6 +256,12 @@ def gen_grammar(rng, template=None, max_nt=5, max_t=3, max_rules=11, max_body=3,
                 R(h, *((t, x) if left else (x, t)))
         R(rng.choice(Ns), a)
     rules = rules[: max_rules + 4]
+    # a vocabulary symbol that no rule uses (strings containing it are outside the language); with integer
+    # vocabularies it is larger than every used terminal, the way range(256) relates to the bytes a grammar uses
+    if vocab == "ints" and rng.random() < 0.4:
+        Ts = list(Ts) + [max([t for t in Ts] + [0]) + rng.randint(1, 6)]
+    elif vocab == "chars" and len(Ts) < 3 and rng.random() < 0.1:
+        Ts = list(Ts) + ["z"]
     g = {"S": S, "V": Ts, "rules": _scale(rules, set(Ns))}
     g["template"] = template
     return g
